@@ -187,6 +187,30 @@ for trial in range(N):
                     got_v = nt.getEntry(f"/components/{cn}/{key}").getValue().value()
                     if (list(got_v) if fb == "hist" else got_v) != VALUES[(cn, fb)]:
                         fail(f"C11: after the second iteration /components/{cn}/{key} holds {got_v!r}, the getter returned {VALUES[(cn, fb)]!r}", layout)
+    # ---- one autonomous-style iteration: the REAL autonomous() decides which per-iteration functions the selector gets; the selector's
+    # loop body (each function under its own guard: verified contract of AutonomousModeSelector.run) is emulated on what it was given
+    robot._MagicRobot__nt_put_mode = lambda v: None; robot._MagicRobot__nt_put_is_ds_attached = lambda v: None; robot._MagicRobot__is_ds_attached = lambda: True
+    saved = set(RAISE); RAISE.clear(); RAISE.update(s_ for s_ in saved if s_[0] in ("teleopPeriodic", "execute", "fb", "robotPeriodic"))
+    robot._automodes.run.reset_mock()
+    try:
+        robot.autonomous()
+        call = robot._automodes.run.call_args
+        fns = call[0][1] if len(call[0]) > 1 else call[1].get("iter_fn")
+        fns = (fns,) if callable(fns) else tuple(fns)
+        def auto_iteration():
+            for fn in fns:
+                try: fn()
+                except Boom:
+                    if not fms: raise
+        want_sites = ([("teleopPeriodic", "robot")] if layout["use_teleop"] else []) + [("execute", c) for c in comps] + \
+                     [("fb", c + "." + f) for c in comps for f in layout["comps"][c]["feedbacks"]] + [("robotPeriodic", "robot")]
+        if run(auto_iteration, want_sites) is None:
+            got = [(e[0], e[1]) for e in TRACE if e[0] in ("teleopPeriodic", "execute", "robotPeriodic")]
+            want = ([("teleopPeriodic", "robot")] if layout["use_teleop"] else []) + [("execute", c) for c in comps] + [("robotPeriodic", "robot")]
+            if got != want: fail(f"C05/C07: autonomous iteration ran {got}, expected {want} (raising: {sorted(RAISE)}, fms={fms})", layout)
+    except Boom:
+        pass      # an enable hook raised without the FMS (covered above)
+    RAISE.clear(); RAISE.update(saved)
     dis_sites = [("on_disable", c) for c in comps if layout["comps"][c]["on_disable"]]
     if run(robot._on_mode_disable_components, dis_sites) is None:
         if [k for k in TRACE] != dis_sites: fail(f"C06: on_disable sequence {TRACE}, expected {dis_sites}", layout)
